@@ -21,6 +21,21 @@ pub fn run_c13<A: Cx>(d: &mut Drv<A>, scale: usize) {
             d.emit(json!({"op": "toamino", "src": sl(0, a, a + 3)}));
         }
     }
+    // codons held by k-mers (Kmer<Dna,3> derefs to a slice) and by owned copies / literals
+    for c in 0..64u8 {
+        let t: Vec<u8> = [c & 3, (c >> 2) & 3, (c >> 4) & 3].iter().map(|&x| b"ACGT"[x as usize]).collect();
+        d.emit(json!({"op": "kparse", "kd": 0, "c": "dna", "k": 3, "st": "usize", "bytes": t}));
+        d.emit(json!({"op": "toamino", "src": {"base": "kmer", "r": 0, "path": []}}));
+        if c % 7 == 0 {
+            let k = 3 + (c as usize % 5);
+            let mut tt = t.clone();
+            tt.extend(d.rand_text(k - 3));
+            d.emit(json!({"op": "kparse", "kd": 1, "c": "dna", "k": k, "st": "usize", "bytes": tt}));
+            d.emit(json!({"op": "toamino", "src": {"base": "kmer", "r": 1, "path": [{"f": "rt", "a": 0, "b": 3}]}}));
+            d.emit(json!({"op": "parse", "dst": 2, "c": "dna", "entry": "str", "bytes": t}));
+            d.emit(json!({"op": "toamino", "src": whole(2)}));
+        }
+    }
     // arbitrary sequences by windows(3) and chunks(3); wrong lengths never yield an amino acid
     for _ in 0..scale.max(1) {
         let n = d.rng.range(0, 110);
@@ -92,23 +107,25 @@ pub fn run_c15<A: Cx>(d: &mut Drv<A>, scale: usize) {
     for round in 0..scale.max(1) {
         let clen = 1 + round % 4; // codon lengths 1..4
         // distinct keys
-        let nkeys = d.rng.range(0, 9);
+        // mostly small maps; now and then one that makes the hash map grow (all codons of this length)
+        let space = d.codes().len().pow(clen as u32);
+        let nkeys = if round % 5 == 4 { space.min(64) } else { d.rng.range(0, 9).min(space) };
         let mut keys: Vec<Vec<u8>> = Vec::new();
         while keys.len() < nkeys {
             let k = d.rand_syms(clen);
             if !keys.contains(&k) {
                 keys.push(k);
-            } else if clen == 1 && keys.len() >= d.codes().len() {
-                break;
             }
         }
         // values drawn from a few residues so that 0 / 1 / 2 / 3+ preimages all occur
-        let pool: Vec<u8> = (0..3).map(|_| *d.rng.pick(&aminos)).collect();
+        let npool = if nkeys > 9 { 7 } else { 3 };
+        let pool: Vec<u8> = (0..npool).map(|_| *d.rng.pick(&aminos)).collect();
         let entries: Vec<Value> = keys.iter().map(|k| json!({"k": k, "v": *d.rng.pick(&pool)})).collect();
         // repeated construction: a fresh RandomState (iteration order) each time
         for rep in 0..4 {
             let t = rep % 4;
-            d.emit(json!({"op": "tablenew", "t": t, "c": A::NAME, "entries": entries}));
+            let via = ["hashmap", "array", "vec", "btree"][rep % 4];
+            d.emit(json!({"op": "tablenew", "t": t, "c": A::NAME, "entries": entries, "via": via}));
             // queries presented as slices at offsets
             let off = d.rng.below(40);
             let mut parent = d.rand_syms(off);
